@@ -223,10 +223,11 @@ Section Answers.
   Variable fields : list fdesc.
   Variable parsers : fname -> parser_kind.
   Variable pol : policy.
+  Variable docok : doc -> bool.         (* admission: number of conjunctions, id range *)
 
   (* the indexed conjunctions of a document with their positions and meanings *)
   Definition doc_sem (d : doc) : list (Z * sconj) :=
-    if doc_valid d && valid_doc_id (d_id d)
+    if docok d
     then indexed_conjs pol (map (fun ic => (fst ic, conj_sem fields parsers (snd ic))) (indexed_from 0 (d_conjs d)))
     else [].
 
@@ -241,3 +242,5 @@ Section Answers.
            (all_some (map (fun ic => option_map (fun b : bool => if b then [(d_id d, (fst ic, sconj_size (snd ic)))] else [])
                                         (sat_conj fields parsers q (snd ic))) (doc_sem d)))) ds)).
 End Answers.
+
+Definition pl_docok (d : doc) : bool := doc_valid d && valid_doc_id (d_id d).
